@@ -10,6 +10,7 @@ import (
 	"net"
 	"net/http"
 	"net/http/httptest"
+	"net/url"
 	"os"
 	"strings"
 	"testing"
@@ -35,6 +36,26 @@ type c36Err struct {
 	Timeout  bool // class "timeout"
 }
 
+// notTimeoutNetErr is a net.Error that says Timeout()==false about itself
+// and (optionally) wraps a cause, like *net.OpError / *url.Error around an
+// error they do not look into.
+type notTimeoutNetErr struct{ cause error }
+
+func (e notTimeoutNetErr) Error() string {
+	if e.cause == nil {
+		return "verif: connection refused"
+	}
+	return "verif: overlay dial: " + e.cause.Error()
+}
+func (e notTimeoutNetErr) Timeout() bool   { return false }
+func (e notTimeoutNetErr) Temporary() bool { return false }
+func (e notTimeoutNetErr) Unwrap() error   { return e.cause }
+
+var _ net.Error = notTimeoutNetErr{}
+
+// The causes. Class "timeout" = the three ways Go spells a timeout: the
+// context deadline sentinel, the os deadline sentinel, and a net.Error whose
+// Timeout() is true.
 func c36Errors() []c36Err {
 	return []c36Err{
 		{Name: "not-found", Err: tun.ErrDestinationNotFound, HTTPWant: 404},
@@ -44,22 +65,110 @@ func c36Errors() []c36Err {
 		{Name: "deadline", Err: context.DeadlineExceeded, HTTPWant: 504, Timeout: true},
 		{Name: "net-timeout", Err: netTimeoutErr{}, HTTPWant: 504, Timeout: true},
 		{Name: "os-deadline", Err: os.ErrDeadlineExceeded, HTTPWant: 504, Timeout: true},
-		{Name: "net-op-timeout", Err: &net.OpError{Op: "dial", Net: "udp", Err: netTimeoutErr{}}, HTTPWant: 504, Timeout: true},
 		{Name: "other", Err: errors.New("verif: something else broke"), HTTPWant: 502},
 		{Name: "closed-pipe", Err: io.ErrClosedPipe, HTTPWant: 502},
+		{Name: "net-error-not-timeout", Err: notTimeoutNetErr{}, HTTPWant: 502},
 	}
 }
 
-var c36Wraps = []string{"bare", "%w", "%w%w"}
+// The wrappers a cause can travel in. A shape is a sequence of 0, 1 or 2
+// wrappers (applied innermost first), i.e. 1 + 6 + 36 = 43 shapes.
+type c36Wrapper struct {
+	Name string
+	Fn   func(error) error
+}
 
-func wrapErr(e error, how string) error {
-	switch how {
-	case "%w":
-		return fmt.Errorf("dial client: %w", e)
-	case "%w%w":
-		return fmt.Errorf("tunnel server: %w", fmt.Errorf("dial client: %w", e))
+var c36Wrappers = []c36Wrapper{
+	{"%w", func(e error) error { return fmt.Errorf("dial client: %w", e) }},
+	{"net.OpError", func(e error) error { return &net.OpError{Op: "dial", Net: "udp", Err: e} }},
+	{"url.Error", func(e error) error { return &url.Error{Op: "Get", URL: "https://tunnel", Err: e} }},
+	{"net.Error(timeout=false)", func(e error) error { return notTimeoutNetErr{cause: e} }},
+	{"join(other,·)", func(e error) error { return errors.Join(errors.New("verif: an earlier failure"), e) }},
+	{"join(·,other)", func(e error) error { return errors.Join(e, errors.New("verif: a later failure")) }},
+}
+
+type c36Shape struct {
+	Name  string
+	Depth int
+	Apply func(error) error
+}
+
+func c36Shapes(maxDepth int) []c36Shape {
+	out := []c36Shape{{Name: "bare", Apply: func(e error) error { return e }}}
+	if maxDepth >= 1 {
+		for _, w := range c36Wrappers {
+			out = append(out, c36Shape{Name: w.Name, Depth: 1, Apply: w.Fn})
+		}
 	}
-	return e
+	if maxDepth >= 2 {
+		for _, outer := range c36Wrappers {
+			for _, inner := range c36Wrappers {
+				o, i := outer.Fn, inner.Fn
+				out = append(out, c36Shape{Name: outer.Name + "(" + inner.Name + ")", Depth: 2, Apply: func(e error) error { return o(i(e)) }})
+			}
+		}
+	}
+	return out
+}
+
+// c36DefinitelyTimeout is the timeout class the check is strict about:
+// (T1) the context deadline sentinel is anywhere in the error tree (no wrapper
+// can contradict the sentinel), or (T2) the net.Error that errors.As reports
+// for the chain - the outermost one - says Timeout()==true. T2 covers
+// os.ErrDeadlineExceeded and net timeouts bare, %w-wrapped, joined and
+// directly inside *net.OpError / *url.Error (which then report true
+// themselves). What is left are chains in which an outer net.Error says
+// Timeout()==false about itself while an os / net timeout sits deeper: two
+// parts of the chain contradict each other and the statement does not say
+// which wins.
+func c36DefinitelyTimeout(err error) bool {
+	if errors.Is(err, context.DeadlineExceeded) {
+		return true
+	}
+	var ne net.Error
+	return errors.As(err, &ne) && ne.Timeout()
+}
+
+var c36ShapeByName = func() map[string]c36Shape {
+	m := map[string]c36Shape{}
+	for _, sh := range c36Shapes(2) {
+		m[sh.Name] = sh
+	}
+	return m
+}()
+
+func wrapErr(e error, shape string) error {
+	sh, ok := c36ShapeByName[shape]
+	if !ok {
+		panic("harness: unknown error shape " + shape)
+	}
+	return sh.Apply(e)
+}
+
+// chainHasTimeoutCause walks the whole error tree (Unwrap() error and
+// Unwrap() []error): true when any node is one of the deadline sentinels or
+// reports Timeout()==true. This is the harness' definition of "a timeout".
+func chainHasTimeoutCause(err error) bool {
+	if err == nil {
+		return false
+	}
+	if err == context.DeadlineExceeded || err == os.ErrDeadlineExceeded {
+		return true
+	}
+	if t, ok := err.(interface{ Timeout() bool }); ok && t.Timeout() {
+		return true
+	}
+	switch u := err.(type) {
+	case interface{ Unwrap() error }:
+		return chainHasTimeoutCause(u.Unwrap())
+	case interface{ Unwrap() []error }:
+		for _, e := range u.Unwrap() {
+			if chainHasTimeoutCause(e) {
+				return true
+			}
+		}
+	}
+	return false
 }
 
 const c36Root = "example.com"
@@ -127,7 +236,7 @@ func isDeadline(err error) bool {
 type c36Case struct {
 	Proto        string `json:"protocol"` // http/1.1 http/2 http/3 tcp connect
 	Err          string `json:"dial_error,omitempty"`
-	Wrap         string `json:"wrap,omitempty"`
+	Wrap         string `json:"wrap,omitempty"` // shape name: outer(inner)
 	ClientStatus string `json:"client_status,omitempty"`
 	BadHost      bool   `json:"bad_host,omitempty"`
 }
@@ -194,6 +303,9 @@ func runC36HTTP(t *testing.T, rec *ev.Recorder, c c36Case, e *c36Err) {
 	labels := []string{"proto:" + c.Proto}
 	if e != nil {
 		labels = append(labels, "dial-error:"+e.Name, "wrap:"+c.Wrap, fmt.Sprintf("http-status:%d", w.Code))
+		if e.Timeout && !c36DefinitelyTimeout(derr) {
+			labels = append(labels, "timeout:contradicted-by-outer-net-error(502-or-504-accepted)")
+		}
 	} else {
 		labels = append(labels, "control:client-answers")
 	}
@@ -210,21 +322,29 @@ func runC36HTTP(t *testing.T, rec *ev.Recorder, c c36Case, e *c36Err) {
 		}
 		return
 	}
+	if e.Timeout != chainHasTimeoutCause(derr) {
+		panic(fmt.Sprintf("harness: cause %s in shape %s: class mismatch", e.Name, c.Wrap))
+	}
+	if e.Timeout && !c36DefinitelyTimeout(derr) {
+		// contradictory chain (see the rule): 502 and 504 are both accepted
+		rec.Add("timeout_rows_contradicted_by_outer_net_error", 1)
+		rec.Add(fmt.Sprintf("timeout_rows_contradicted_by_outer_net_error_answered_%d", w.Code), 1)
+		if w.Code == 502 || w.Code == 504 {
+			return
+		}
+	}
 	if w.Code == e.HTTPWant {
 		return
 	}
-	if e.Timeout && c.Wrap != "bare" && w.Code == 502 {
-		var ne net.Error
-		if !errors.Is(derr, context.DeadlineExceeded) && errors.As(derr, &ne) && ne.Timeout() {
-			// a %w-wrapped net.Error timeout: tun.IsTimeout type-asserts instead of errors.As
-			if ev.Known("C36", sigC36WrappedNetTimeout) {
-				rec.Excluded(sigC36WrappedNetTimeout)
-				return
-			}
-			rec.Fail(t, sigC36WrappedNetTimeout, doc, "%s: dial error %q (a wrapped net.Error timeout) answered with %d, want 504", c.Proto, derr, w.Code)
+	if e.Timeout && c.Wrap != "bare" && w.Code == 502 && !errors.Is(derr, context.DeadlineExceeded) {
+		// a wrapped net.Error timeout: tun.IsTimeout type-asserted instead of errors.As (repaired)
+		if ev.Known("C36", sigC36WrappedNetTimeout) {
+			rec.Excluded(sigC36WrappedNetTimeout)
+			return
 		}
+		rec.Fail(t, sigC36WrappedNetTimeout, doc, "%s: dial error %q (a wrapped net.Error timeout, shape %s) answered with %d, want 504", c.Proto, derr, c.Wrap, w.Code)
 	}
-	rec.Fail(t, "http-wrong-status-for-"+e.Name, doc, "%s: dial error %q (%s, %s) answered with %d, want %d", c.Proto, derr, e.Name, c.Wrap, w.Code, e.HTTPWant)
+	rec.Fail(t, "http-wrong-status-for-"+e.Name, doc, "%s: dial error %q (%s in shape %s) answered with %d, want %d", c.Proto, derr, e.Name, c.Wrap, w.Code, e.HTTPWant)
 }
 
 func runC36TCP(t *testing.T, rec *ev.Recorder, c c36Case, e *c36Err) {
@@ -389,7 +509,7 @@ func runC36Connect(t *testing.T, rec *ev.Recorder, c c36Case, e *c36Err) {
 func TestC36(t *testing.T) {
 	rec := ev.New(t, "C36")
 	rec.Exhaustive(true)
-	rec.Rule("exhaustive product: dial error in {not-found, not-connected, lookup-failed, no-direct, context deadline, net.Error timeout, os.ErrDeadlineExceeded, net.OpError timeout, other, closed-pipe} x {bare, %w, %w%w} x {HTTP proxy as HTTP/1.1, HTTP/2, HTTP/3 request, raw TCP stream, HTTP CONNECT}; for TCP and CONNECT also a successful dial x client status frame {OK, NO_DIRECT, UNKNOWN_ERROR} and a host the gateway refuses; for HTTP one control per protocol (client answers). A fresh Gateway per case. Oracle: HTTP status 404 / 503 / 504 / 502 by error class; TCP: a status frame other than OK is readable before the stream ends, OK only with a client connection that said OK (then bytes flow); CONNECT: a non-2xx response on failure, 2xx only with a client connection that said OK. Non-trivial: a failure is injected (controls are trivial). Distinct = distinct product elements.")
+	rec.Rule("exhaustive product, enumerated completely in both tiers. Causes (10): not-found, not-connected, lookup-failed, no-direct, context.DeadlineExceeded, a net.Error with Timeout()==true, os.ErrDeadlineExceeded, other, closed-pipe, a net.Error with Timeout()==false. Shapes: sequences of 0..2 wrappers out of {%w, *net.OpError{Err:.}, *url.Error{Err:.}, custom net.Error with Timeout()==false and Unwrap, errors.Join(other,.), errors.Join(.,other)} = 1+6+36 = 43 shapes. Entry points: HTTP proxy as HTTP/1.1 request x all 43 shapes; HTTP/2 and HTTP/3 requests, raw TCP stream and HTTP CONNECT x the 7 shapes of depth <= 1; for TCP and CONNECT also a successful dial x client status frame {OK, NO_DIRECT, UNKNOWN_ERROR} and a host the gateway refuses; one forwarding control per HTTP protocol. A fresh Gateway per case. Oracle, HTTP: the class of the cause contained in the chain decides: not-found 404, not-connected 503, timeout 504, everything else 502. Timeout class (strict 504): the context deadline sentinel is anywhere in the error tree (errors.Is; nothing can contradict the sentinel), or the outermost net.Error of the chain (errors.As) reports Timeout()==true - i.e. all three timeout causes bare, %w, %w%w, joined, directly inside OpError/url.Error, and the context sentinel under ANY wrapper incl. %w inside OpError / url.Error / a net.Error that says Timeout()==false. Not decided (502 or 504 accepted, rows counted in evidence): os.ErrDeadlineExceeded or a net timeout below a net.Error that itself reports Timeout()==false (36 of the 129 timeout rows) - the chain contradicts itself and the statement does not say which part wins. TCP: a status frame other than OK is readable before the stream ends, OK only with a client connection that said OK (then bytes flow); CONNECT: a non-2xx response on failure, 2xx only with a client connection that said OK. Non-trivial: a failure is injected (controls are trivial). Distinct = distinct product elements.")
 	rec.Assume("context.Canceled and io.EOF are excluded from the HTTP classes (the handler documents them as expected, nothing is written)",
 		"raw TCP is driven through forwardTCP (accessor) with a net.Pipe stream, CONNECT through the real plain-HTTP router on an in-memory listener, HTTP through the real tunnel proxy handler")
 
@@ -413,11 +533,19 @@ func TestC36(t *testing.T) {
 		rec.Witnessed(sigC36WrappedNetTimeout, w.Code == 502 && w2.Code == 504)
 	}
 
+	// HTTP/1.1 carries the full shape product (depth <= 2); the other entry
+	// points share the same errorHandler / status-frame code and carry the
+	// depth <= 1 shapes.
+	full, shallow := c36Shapes(2), c36Shapes(1)
 	for _, proto := range []string{"http/1.1", "http/2", "http/3"} {
 		runC36HTTP(t, rec, c36Case{Proto: proto}, nil)
+		shapes := shallow
+		if proto == "http/1.1" {
+			shapes = full
+		}
 		for i := range errs {
-			for _, wrap := range c36Wraps {
-				runC36HTTP(t, rec, c36Case{Proto: proto, Err: errs[i].Name, Wrap: wrap}, &errs[i])
+			for _, sh := range shapes {
+				runC36HTTP(t, rec, c36Case{Proto: proto, Err: errs[i].Name, Wrap: sh.Name}, &errs[i])
 			}
 		}
 	}
@@ -427,8 +555,8 @@ func TestC36(t *testing.T) {
 			run = runC36Connect
 		}
 		for i := range errs {
-			for _, wrap := range c36Wraps {
-				run(t, rec, c36Case{Proto: proto, Err: errs[i].Name, Wrap: wrap}, &errs[i])
+			for _, sh := range shallow {
+				run(t, rec, c36Case{Proto: proto, Err: errs[i].Name, Wrap: sh.Name}, &errs[i])
 			}
 		}
 		for _, cs := range c36ClientStatuses {
